@@ -50,6 +50,8 @@ type NodeSpec struct {
 	ProvisionalOrd *int `json:"provisional_ord,omitempty"`
 	// ZeroValueErrors: this node reports its injected faults with a field-less value-typed error
 	ZeroValueErrors bool `json:"zero_value_errors,omitempty"`
+	// CauselessErrors: this node reports its injected faults with an application error type whose Cause() is nil
+	CauselessErrors bool `json:"causeless_errors,omitempty"`
 }
 
 func (n *NodeSpec) DisplayName() string {
@@ -165,6 +167,7 @@ func Build(sc *Scenario, opt Options) *Run {
 		k := n.Core()
 		k.Idx, k.Name, k.Qual, k.KindV, k.Ord, k.Log, k.Hook = i, ns.Name, ns.Qual, ns.Kind, ns.Ord, r.Log, opt.Hook
 		k.ZeroErr = ns.ZeroValueErrors
+		k.CauseErr = ns.CauselessErrors
 		if ns.ProvisionalOrd != nil {
 			k.Ord = *ns.ProvisionalOrd
 			final, outer := ns.Ord, k.Hook
